@@ -1,3 +1,114 @@
-(* C15 -- stub while the proofs are being written *)
-From Coq Require Import QArith ZArith List.
+(* C15 -- CorrelationRemover output is uncorrelated with every sensitive column.
+   Only statements, `exact`, and Print Assumptions.  Matrices are lists of columns over Q;
+   wf n X says that every column has n entries.  The same functions (split, fit_transform, fit,
+   transform) are evaluated against fairlearn.preprocessing.CorrelationRemover on every run. *)
+From Coq Require Import QArith ZArith List Sorted.
 From FL Require Import Num CorrRemover CorrRemover_proofs.
+Import ListNotations.
+Open Scope Q_scope.
+
+(* every column of X - project S X is orthogonal to every column of centre S: any number of rows >= 1,
+   any number of columns, collinear and constant sensitive columns included *)
+Theorem C15_gs_orthogonal :
+  forall (n : nat) (S X : mat), (1 <= n)%nat -> wf n S -> wf n X ->
+  forall r c, In r (msub X (project S X)) -> In c (centre S) -> dot r c == 0.
+Proof. exact gs_orthogonal. Qed.
+Print Assumptions C15_gs_orthogonal.
+
+(* alpha = 1: every output column of fit_transform has zero sample covariance with every sensitive
+   column of the training data (ids by position or by label through names, in any order) *)
+Theorem C15_zero_covariance :
+  forall (n : nat) (names ids : list Z) (alpha : Q) (X out Xs Xuse : mat),
+  (2 <= n)%nat -> wf n X -> length names = length X -> alpha == 1 ->
+  split names ids X = Some (Xuse, Xs) -> fit_transform names ids alpha X = Some out ->
+  forall r s, In r out -> In s Xs -> covsum r s == 0 /\ sample_cov r s == 0.
+Proof. exact zero_covariance. Qed.
+Print Assumptions C15_zero_covariance.
+
+(* centring all sensitive columns by ONE scalar mean (the defect repaired by /repo commit e03cf38) does
+   not have the property: computed witness with two sensitive columns *)
+Theorem C15_global_centring_refuted :
+  exists names ids out Xuse Xs r s,
+    wf 6 witness_X /\ length names = length witness_X /\
+    split names ids witness_X = Some (Xuse, Xs) /\
+    fit_transform_global names ids 1 witness_X = Some out /\
+    In r out /\ In s Xs /\ ~ covsum r s == 0.
+Proof. exact global_centring_refuted. Qed.
+Print Assumptions C15_global_centring_refuted.
+
+(* the output is alpha * (X_use - project) + (1 - alpha) * X_use; alpha = 0 returns the non-sensitive
+   columns unchanged, alpha = 1 the residual *)
+Theorem C15_alpha_blend :
+  forall (n : nat) (names ids : list Z) (alpha : Q) (X out Xuse Xs : mat),
+  wf n X -> length names = length X ->
+  split names ids X = Some (Xuse, Xs) -> fit_transform names ids alpha X = Some out ->
+  out = mmap2 (vblend alpha) (msub Xuse (project Xs Xuse)) Xuse /\
+  (alpha == 0 -> meq out Xuse) /\
+  (alpha == 1 -> meq out (msub Xuse (project Xs Xuse))).
+Proof. exact alpha_blend. Qed.
+Print Assumptions C15_alpha_blend.
+
+Theorem C15_blend_entry :
+  forall (k : Q) (u x : vec), length u = length x ->
+  forall i, nth i (vblend k u x) 0 == k * nth i u 0 + (1 - k) * nth i x 0.
+Proof. exact vblend_entry. Qed.
+Print Assumptions C15_blend_entry.
+
+(* sensitive columns in the order of the ids (looked up by position or label), dropped from the output;
+   the remaining columns keep their original order; one output column per remaining column *)
+Theorem C15_columns_kept :
+  forall (names ids : list Z) (X Xuse Xs : mat), split names ids X = Some (Xuse, Xs) ->
+  exists s, Forall2 (fun id i => nth_error names i = Some id) ids s /\
+            Xs = cols X s /\ Xuse = cols X (use_idx (length X) s) /\
+            (forall i, In i (use_idx (length X) s) <-> (i < length X)%nat /\ ~ In i s) /\
+            StronglySorted lt (use_idx (length X) s) /\
+            (forall alpha out, fit_transform names ids alpha X = Some out -> length out = length Xuse).
+Proof. exact columns_kept. Qed.
+Print Assumptions C15_columns_kept.
+
+(* the split is defined exactly when every id is a column (otherwise the code raises ValueError) *)
+Theorem C15_split_defined :
+  forall (names ids : list Z) (X : mat),
+  (exists p, split names ids X = Some p) <-> Forall (fun id => In id names) ids.
+Proof. exact split_defined. Qed.
+Print Assumptions C15_split_defined.
+
+(* any coefficient vector solving the normal equations C^T (C w) = C^T x yields the projection computed by
+   Gram-Schmidt: the fitted values do not depend on which solution lstsq returns (rank-deficient C included) *)
+Theorem C15_projection_unique :
+  forall (n : nat) (C : mat) (x : vec) (ws : list Q), wf n C -> length x = n ->
+  (forall c, In c C -> dot c (lincomb ws C x) == dot c x) ->
+  veq (lincomb ws C x) (proj_basis (basis C) x).
+Proof. exact projection_unique. Qed.
+Print Assumptions C15_projection_unique.
+
+(* FULL statement wanted (transform_affine): for a sensitive block of full column rank,
+     fit names ids X = Some f -> transform names ids f alpha X =~ fit_transform names ids alpha X.
+   PROVED: the same under the extra premise that the beta computed by Gauss-Jordan solves the normal
+   equations (normal_eqs_hold ... = true, a closed boolean that the kernel evaluates on every
+   correspondence case).  MISSING: correctness of the Gauss-Jordan elimination (solve_beta).
+   That transform is ONE affine map (training means f_mean and coefficients f_beta) whatever data it is
+   applied to holds by construction: transform_split uses only f and its argument. *)
+Theorem C15_transform_is_fit_transform_partial :
+  forall (n : nat) (names ids : list Z) (alpha : Q) (X Xuse Xs : mat) (f : fitted),
+  wf n X -> length names = length X -> split names ids X = Some (Xuse, Xs) ->
+  fit names ids X = Some f -> normal_eqs_hold (centre Xs) (f_beta f) Xuse = true ->
+  exists o1 o2, transform names ids f alpha X = Some o1 /\
+                fit_transform names ids alpha X = Some o2 /\ meq o1 o2.
+Proof. exact transform_is_fit_transform_api_partial. Qed.
+Print Assumptions C15_transform_is_fit_transform_partial.
+
+(* non-vacuity: the premises of C15_zero_covariance hold on a 6 x 4 matrix with two sensitive columns
+   given in decreasing order, and the output really differs from the input columns *)
+Example C15_example :
+  let X := witness_X in
+  wf 6 X /\ (2 <= 6)%nat /\
+  exists Xuse Xs out, split [0;1;2;3]%Z [2;0]%Z X = Some (Xuse, Xs) /\
+     fit_transform [0;1;2;3]%Z [2;0]%Z 1 X = Some out /\ mat_eqb out Xuse = false /\
+     zero_cov_all out Xs = true /\
+     exists f, fit [0;1;2;3]%Z [2;0]%Z X = Some f /\ normal_eqs_hold (centre Xs) (f_beta f) Xuse = true.
+Proof.
+  split; [repeat constructor|]. split; [repeat constructor|]. do 3 eexists.
+  split; [vm_compute; reflexivity|]. split; [vm_compute; reflexivity|]. split; [vm_compute; reflexivity|].
+  split; [vm_compute; reflexivity|]. eexists. split; vm_compute; reflexivity.
+Qed.
